@@ -120,6 +120,10 @@ M = [
     ('sheetrows', '_Repr.repr', 'pjplan/task.py', "        for s in fields:\n            table.new_cell(s.upper())", "        for s in fields:\n            pass", 'cell'),
     ('sheetrows', '_Repr.repr', 'pjplan/task.py', "            _Repr.__print_task_subtree(_task, fields, 0, table, children, theme)", "            _Repr.__print_task_subtree(_task, fields, 0, table, True, theme)", 'one-header-line'),
     ('sheetrows', '_Repr.repr', 'pjplan/task.py', "        table = TextTable()\n        table.new_row(header_color)", "        table = TextTable()", ''),
+    ('render', 'MermaidNetwork.__src', 'pjplan/viz/mermaid/network.py', "            if len(t.predecessors) == 0:\n                res += f\"  0((Start)) --> {t.id}{{{{{t_name}}}}}\\n\"", "            if len(t.predecessors) == 0:\n                pass", 'one-line'),
+    ('render', 'MermaidNetwork.__src', 'pjplan/viz/mermaid/network.py', "                    res += f\"  {p.id}{{{{{p_name}}}}} --> {t.id}{{{{{t_name}}}}}\\n\"", "                    res += f\"  {p.id}{{{{{p_name}}}}} --> {t.id}{{{{{t_name}}}}}\"", 'edge-lines'),
+    ('render', 'MermaidNetwork.__src', 'pjplan/viz/mermaid/network.py', "            if len(t.predecessors) == 0:", "            if len(t.predecessors) != 0:", ''),
+    ('render', 'MermaidNetwork.__src', 'pjplan/viz/mermaid/network.py', "                res += f'style {t.id} {self.__dict_to_style(t.network_bar_style)}\\n'", "                res = f'style {t.id} {self.__dict_to_style(t.network_bar_style)}\\n'", 'style-lines'),
     ('loops', '_check_loops_from_task', 'pjplan/schedule.py', "    visited_tasks.add(task.id)\n\n    for s in task.predecessors:", "    for s in task.predecessors:", 'KeyError'),
     ('loops', '_check_loops_from_task', 'pjplan/schedule.py', "    visited_tasks.remove(task.id)\n    validated.add(task.id)", "    validated.add(task.id)", 'visited-set-is-restored'),
     ('loops', '_check_loops_from_task', 'pjplan/schedule.py', "    visited_tasks.remove(task.id)\n    validated.add(task.id)", "    visited_tasks.remove(task.id)\n    validated.remove(task.id)", 'KeyError'),
